@@ -543,11 +543,33 @@ fn confirm(v: &Value) -> Result<(), String> {
     let op = v["op"].as_str().and_then(Op::from_name).ok_or_else(|| format!("replay: unknown op in {v}"))?;
     let a = Opd::from_json(&v["a"])?;
     let b = if op.binary() { Opd::from_json(&v["b"])? } else { a };
-    let (o, pm) = check_caught(op, &a, &b);
-    match o.verdict {
-        Verdict::Fail => Err(summary(op, &a, &b, &o, &pm)),
-        _ => Ok(()),
-    }
+    // The call is repeated on a fresh thread: f80 operations must be pure, but a defect that leaks x87
+    // register-stack slots (or any other per-thread state) only shows after some calls on one thread.
+    // A fresh thread starts from a clean FPU state, so the two confirming runs see the same thing.
+    std::thread::spawn(move || {
+        for rep in 0..16 {
+            let (o, pm) = check_caught(op, &a, &b);
+            if let Verdict::Fail = o.verdict {
+                let s = summary(op, &a, &b, &o, &pm);
+                return Err(if rep == 0 { s } else { format!("{s} [on repetition {rep} on one fresh thread, after the other f80 operations were called on the same operands: the result depends on earlier f80 calls]") });
+            }
+            // interference: every other operation on the same operands (an f80 -> f64 conversion, a
+            // comparison …); f80 has no state, so none of this may change what the recorded call returns
+            for other in ALL_OPS {
+                if other == op || matches!(other, Op::FromF64 | Op::Roundtrip) && !matches!(a, Opd::F64(_)) {
+                    continue;
+                }
+                let bb = if other.binary() { b } else { a };
+                let (o2, pm2) = check_caught(other, &a, &bb);
+                if let Verdict::Fail = o2.verdict {
+                    return Err(format!("{} [called on one fresh thread after {} round(s) of all f80 operations on the same operands: the result depends on earlier f80 calls]", summary(other, &a, &bb, &o2, &pm2), rep + 1));
+                }
+            }
+        }
+        Ok(())
+    })
+    .join()
+    .unwrap_or_else(|_| Err("replay thread panicked".to_string()))
 }
 
 // ---------------------------------------------------------------------------------------------------
